@@ -27,6 +27,9 @@ enum OpKind {
     BuildFromPaths,
     /// OpenOptions::create — the "new empty archive" entry point
     Create,
+    /// the C API's SFileCreateArchive (libstorm.so built from the current tree); `fileset` holds the creation
+    /// disposition (2 CREATE_ALWAYS, 5 TRUNCATE_EXISTING)
+    CApiCreate,
 }
 
 #[derive(Clone, Debug, Serialize, Deserialize)]
@@ -36,7 +39,8 @@ struct Config {
     prev: Prev,
     fileset: u8,
     /// how the destination is named: 0 `dest.mpq`; 1 `dest.tmp`; 2 `archive.mpq.tmp` (names a writer's own
-    /// temporary-file scheme could collide with); 3 `link.mpq`, a symbolic link to `real/target.mpq`
+    /// temporary-file scheme could collide with); 3 `link.mpq`, a symbolic link to `real/target.mpq`;
+    /// 4 `readonly.mpq`, an existing destination with mode 0444 (installed game data)
     #[serde(default)]
     dest: u8,
 }
@@ -102,7 +106,7 @@ fn expected_new(cfg: &Config) -> Vec<(String, Vec<u8>)> {
             let s = fileset(cfg.version, cfg.fileset);
             (0..s.files.len()).map(|i| (s.files[i].name.clone(), s.content(i))).collect()
         }
-        OpKind::Create => vec![],
+        OpKind::Create | OpKind::CApiCreate => vec![],
         OpKind::Compact => {
             // prev archive minus the removed file p1
             let s = prev_spec(cfg.version);
@@ -124,6 +128,17 @@ fn op_main(cfg: &Config, dest: &Path) -> ! {
             }
             b.build(dest).map_err(|e| e.to_string())
         }
+        OpKind::CApiCreate => (|| {
+            let storm = vcheck::ffi::Storm::load(&vcheck::ffi::lib_path())?;
+            let p = vcheck::ffi::cstr(dest.to_str().unwrap());
+            let mut h: vcheck::ffi::Handle = std::ptr::null_mut();
+            let ok = unsafe { (storm.SFileCreateArchive)(p.as_ptr(), cfg.fileset as u32, 16, &mut h) };
+            if !ok {
+                return Err(format!("SFileCreateArchive failed, last error {}", storm.last_error()));
+            }
+            storm.close(h);
+            Ok(())
+        })(),
         OpKind::Create => wow_mpq::OpenOptions::new().version(fileset(cfg.version, 0).format_version()).create(dest).map(|_| ()).map_err(|e| e.to_string()),
         OpKind::Compact => (|| {
             let mut m = MutableArchive::open(dest).map_err(|e| e.to_string())?;
@@ -183,9 +198,9 @@ fn trace_case(case: &Case) -> Value {
     let dir = engine::scratch("c12");
     let sandbox = dir.path().join("sbx");
     std::fs::create_dir_all(&sandbox).unwrap();
-    let dest = sandbox.join(["dest.mpq", "dest.tmp", "archive.mpq.tmp", "link.mpq"][case.cfg.dest as usize % 4]);
+    let dest = sandbox.join(["dest.mpq", "dest.tmp", "archive.mpq.tmp", "link.mpq", "readonly.mpq"][case.cfg.dest as usize % 5]);
     // a symbolic link is created after the previous state exists at its target (writers replace links)
-    let real = if case.cfg.dest % 4 == 3 {
+    let real = if case.cfg.dest % 5 == 3 {
         std::fs::create_dir_all(sandbox.join("real")).unwrap();
         sandbox.join("real").join("target.mpq")
     } else {
@@ -199,8 +214,12 @@ fn trace_case(case: &Case) -> Value {
         }
     }
     let prev_r = setup_prev(&case.cfg, &real);
-    if case.cfg.dest % 4 == 3 {
+    if case.cfg.dest % 5 == 3 {
         std::os::unix::fs::symlink("real/target.mpq", &dest).unwrap();
+    }
+    if case.cfg.dest % 5 == 4 && dest.exists() {
+        use std::os::unix::fs::PermissionsExt;
+        std::fs::set_permissions(&dest, std::fs::Permissions::from_mode(0o444)).unwrap();
     }
     let prev = match prev_r {
         Ok(p) => p,
@@ -297,12 +316,18 @@ fn configs() -> Vec<Config> {
         }
         v.push(Config { op: OpKind::Compact, version, prev: Prev::Archive, fileset: 0, dest: 0 });
         // destination names and kinds a writer's temporary-file scheme can trip over
-        for (dest, prev) in [(1u8, Prev::Archive), (2, Prev::Archive), (2, Prev::Absent), (3, Prev::Archive)] {
+        for (dest, prev) in [(1u8, Prev::Archive), (2, Prev::Archive), (2, Prev::Absent), (3, Prev::Archive), (4, Prev::Archive), (4, Prev::Junk)] {
             v.push(Config { op: OpKind::Build, version, prev, fileset: 0, dest });
         }
         for prev in [Prev::Archive, Prev::Absent] {
             v.push(Config { op: OpKind::BuildFromPaths, version, prev: prev.clone(), fileset: 1, dest: 0 });
             v.push(Config { op: OpKind::Create, version, prev, fileset: 0, dest: 0 });
+        }
+        if version == 2 {
+            // the C API always creates V2 archives
+            for (disposition, prev) in [(2u8, Prev::Archive), (2, Prev::Absent), (5, Prev::Archive)] {
+                v.push(Config { op: OpKind::CApiCreate, version, prev, fileset: disposition, dest: 0 });
+            }
         }
         v.push(Config { op: OpKind::Compact, version, prev: Prev::Archive, fileset: 0, dest: 3 });
         v.push(Config { op: OpKind::Compact, version, prev: Prev::Archive, fileset: 0, dest: 1 });
